@@ -4,6 +4,7 @@ Offline checker (E4 parse + elaborate + well-formedness) over every text the gen
 this suite (C01 designs, transpiled corpus, library system blocks) plus a naming-stress and an optional-port-reuse
 workload; the "interchangeable" clause is evaluated from the live objects that share a module name.
 """
+import os
 import re
 import time
 
@@ -46,7 +47,7 @@ def family(name):
 PRIMARY = ('duplicate_declaration',)
 
 
-def judge_text(run, text, label, case, blackboxes=(), root_kind='structural', single_module=False):
+def judge_text(run, text, label, case, blackboxes=(), root_kind='structural', single_module=False, ignore=()):
     run.ev()
     run.count('texts')
     d = vlog.check_design(text, blackboxes)
@@ -68,6 +69,9 @@ def judge_text(run, text, label, case, blackboxes=(), root_kind='structural', si
         if single_module and dg.code == 'undefined_module':
             # a single-module request (getVerilog) does not include the modules it instantiates: they are external here
             run.count('external_modules_of_single_module_text')
+            continue
+        if dg.code in ignore:
+            run.count('diagnostics_not_applicable_to_this_workload')
             continue
         if dg.code != 'duplicate_declaration' and _mentions(dg, dup_names):
             run.count('secondary_diagnostics')
@@ -769,6 +773,32 @@ def run_check(run, tier, seed, shard):
         from . import c02
         for label, text in c02.corpus_texts(run):
             judge_text(run, text, 'transpiled: ' + label, dict(workload='transpiled', label=label))
+        # ... and of generated behavioural programs (the main grammar of C02: every construct in it is accepted on the unchanged tree)
+        from .common import run_dir
+        n = 150 if quick else 6000
+        with run_dir() as d_:
+            for i in shard_slice(range(n), shard):
+                if time.time() > deadline or run.too_many:
+                    break
+                rnd = rng(seed, 'c03-transpiled', i)
+                g = c02.PGen(rnd, 'clock' if rnd.random() < 0.7 else 'propagate', 'main')
+                name = 'T%d_%d' % (os.getpid(), i)
+                try:
+                    prog = g.build(name)
+                    C = c02.load_class(prog.source(), name, d_)
+                    hw = py4hw.HWSystem()
+                    with muted():
+                        ins = [hw.wire(n_, w) for n_, w in prog.ins]
+                        outs = [hw.wire(n_, w) for n_, w in prog.outs]
+                        obj = C(hw, 'g', *ins, *outs, *[v for _, v in prog.consts])
+                        text = py4hw.VerilogGenerator(obj).getVerilogForHierarchy()
+                except BaseException:
+                    run.count('refused')
+                    continue
+                run.count('transpiled_program_texts')
+                # a generated program need not drive every output it declares (the Python block does not either): not the emitter's doing
+                judge_text(run, text, 'transpiled program %d' % i, dict(workload='transpiled_program', index=i, source=prog.source()[:3000]),
+                           ignore=('undriven_net',))
     except (ImportError, AttributeError):
         run.count('c02_corpus_missing')
     if time.time() > deadline:
